@@ -17,6 +17,7 @@ class Profile:
         self.neg_stride_safe = True   # negative strides where they compile (signed types / WO registers / commands)
         self.block_refs = False       # D9
         self.refs = True
+        self.ref_families = True      # several refs to one target with complementary override sets (seed C04-5)
         self.repeats = True
         self.blocks = True
         self.max_depth = 2
@@ -47,6 +48,9 @@ class Gen:
         self.commands = []
         self.blocks = []
         self.enum_count = 0
+        self.scope = 0        # id of the block body being generated (0 = root); refs without address override need it
+        self.scopes = 0
+        self.scope_of = {}    # object name -> scope it was declared in
 
     def name(self):
         return self.names.pop() if self.names else None
@@ -116,12 +120,12 @@ class Gen:
         rng, p = self.rng, self.p
         if not p.repeats or rng.random() < 0.6:
             return None, 1
-        count = rng.choice([1, 2, 3, 4])
+        count = rng.choice([0, 1, 2, 2, 3, 3, 4, 4])   # 0: legal, no instance, every index panics
         strides = [1, 2, 4, 8, 16]
         if p.neg_stride or (p.neg_stride_safe and not unsigned_readable):
             strides += [-1, -2, -4]
         stride = rng.choice(strides)
-        return {"count": count, "stride": stride}, abs(stride) * (count - 1) + 1
+        return {"count": count, "stride": stride}, abs(stride) * max(count - 1, 0) + 1
 
     def byte_order(self, cfg, size):
         bo = self.rng.choice([None, "LE", "BE"])
@@ -154,6 +158,7 @@ class Gen:
                              reset_value=reset, repeat=rep,
                              doc=("register " + name) if p.docs and rng.random() < 0.3 else None)
         self.registers.append(r)
+        self.scope_of[name] = self.scope
         return r
 
     def command(self, cfg):
@@ -177,13 +182,18 @@ class Gen:
                                 byte_order=self.byte_order(cfg, max(si or 0, so or 0)),
                                 bit_order=rng.choice([None, None, "MSB0"]), repeat=rep)
         self.commands.append(c)
+        self.scope_of[name] = self.scope
         return c
 
     def buffer(self, cfg):
         name = self.name()
         return adef.mk_buffer(name, self.addr("buffer"), access=self.rng.choice([None, "RW", "RO", "WO"]))
 
-    def ref(self, cfg, reg_unsigned):
+    def ref(self, cfg, reg_unsigned, target=None, mode=None):
+        """mode None: random overrides (an address always).  Modes used for FAMILIES of refs to one target (each ref must
+        start from the pristine target, whatever its siblings override): "full" = address + repeat (+ access, overlap flag,
+        reset value), "addr_only" = address alone (repeat / access / reset value are the target's), "bare" = no override
+        but ALLOW_ADDRESS_OVERLAP (address, repeat, access are the target's; the target allows the overlap too)."""
         rng, p = self.rng, self.p
         kinds = []
         if self.registers:
@@ -194,11 +204,42 @@ class Gen:
             kinds.append("block")
         if not kinds:
             return None
-        k = rng.choice(kinds)
+        if target:
+            k, t = target
+        else:
+            k = rng.choice(kinds)
+            t = rng.choice({"register": self.registers, "command": self.commands, "block": self.blocks}[k])
+        if k == "command" and t.get("basic") and mode == "bare":
+            mode = "addr_only"
+        if mode == "bare":
+            tr = t.get("repeat")
+            same_scope = self.scope_of.get(t["name"]) == self.scope
+            fresh = t["address"] >= self.next_addr[k] and not (tr and tr["stride"] < 0)
+            if tr and tr["stride"] < 0 and not same_scope:
+                mode = "addr_only"
+            elif same_scope:
+                t["allow_address_overlap"] = True
+            elif fresh:
+                self.next_addr[k] = t["address"] + (tr["count"] * abs(tr["stride"]) if tr else 0) + 1
+                if rng.random() < 0.5:
+                    t["allow_address_overlap"] = True
+            else:
+                mode = "addr_only"
         name = self.name()
+        if mode == "bare":
+            ov = {"kind": k}
+            if t.get("allow_address_overlap"):
+                ov["allow_address_overlap"] = True
+            return adef.mk_ref(name, t["name"], ov)
         if k == "register":
-            t = rng.choice(self.registers)
             rep, span = self.repeat(unsigned_readable=reg_unsigned)
+            if mode == "addr_only":
+                rep, span = None, 1
+            elif mode == "full" and p.repeats:
+                for _ in range(20):
+                    if rep and rep != t.get("repeat"):
+                        break
+                    rep, span = self.repeat(unsigned_readable=reg_unsigned)
             ov = {"kind": "register", "address": self.addr("register", span + (t["repeat"]["count"] * abs(t["repeat"]["stride"]) if t["repeat"] and not rep else 0))}
             if rep:
                 if rep["stride"] < 0:
@@ -208,28 +249,57 @@ class Gen:
             elif t["repeat"] and t["repeat"]["stride"] < 0:
                 ov["address"] += t["repeat"]["count"] * abs(t["repeat"]["stride"])
                 self.next_addr["register"] += t["repeat"]["count"] * abs(t["repeat"]["stride"])
-            if rng.random() < 0.3:
-                ov["access"] = rng.choice(["RW", "RO", "WO"])
+            if mode != "addr_only" and (rng.random() < 0.3 or mode == "full"):
+                teff = t.get("access") or cfg.get("default_register_access") or "RW"
+                ov["access"] = rng.choice([a for a in ["RW", "RO", "WO"] if a != teff or mode != "full"])
                 if reg_unsigned and ov["access"] != "WO" and not p.neg_stride:
                     rr = ov.get("repeat") or t["repeat"]
                     if rr and rr["stride"] < 0:
                         ov["access"] = "WO"
-            if p.reset_values and rng.random() < 0.3:
+            if mode != "addr_only" and p.reset_values and rng.random() < (0.6 if mode == "full" else 0.3):
                 nb = (t["size_bits"] + 7) // 8
                 ov["reset_value"] = [0] * nb if rng.random() < 0.5 else (1 if t["size_bits"] >= 1 else 0)
+            if mode == "full" and rng.random() < 0.5:
+                ov["allow_address_overlap"] = True
             return adef.mk_ref(name, t["name"], ov)
         if k == "command":
-            t = rng.choice(self.commands)
             rep, span = self.repeat()
+            if mode == "addr_only":
+                rep, span = None, 1
+            elif mode == "full" and p.repeats:
+                for _ in range(20):
+                    if rep and rep != t.get("repeat"):
+                        break
+                    rep, span = self.repeat()
             span2 = span + (t["repeat"]["count"] * abs(t["repeat"]["stride"]) if t.get("repeat") and not rep else 0)
             ov = {"kind": "command", "address": self.addr("command", span2) + (span2 if ((rep or t.get("repeat") or {}).get("stride", 1) < 0) else 0)}
             if ((rep or t.get("repeat") or {}).get("stride", 1) < 0):
                 self.next_addr["command"] += span2
             if rep:
                 ov["repeat"] = rep
+            if mode == "full" and rng.random() < 0.5:
+                ov["allow_address_overlap"] = True
             return adef.mk_ref(name, t["name"], ov)
-        t = rng.choice(self.blocks)
         return adef.mk_ref(name, t["name"], {"kind": "block", "address_offset": 5000 + rng.randrange(0, 1000)})
+
+    def ref_family(self, cfg, reg_unsigned):
+        """Two or three refs to ONE register / command with complementary override sets, in random order."""
+        rng = self.rng
+        kinds = [k for k, l in (("register", self.registers), ("command", self.commands)) if l]
+        if not kinds:
+            return []
+        k = rng.choice(kinds)
+        t = rng.choice(self.registers if k == "register" else self.commands)
+        modes = rng.choice([["full", "addr_only"], ["full", "bare"], ["full", "addr_only", "bare"], ["full", "full", "addr_only"]])
+        rng.shuffle(modes)
+        out = []
+        for m in modes:
+            if len(self.names) < 2:
+                break
+            o = self.ref(cfg, reg_unsigned, target=(k, t), mode=m)
+            if o:
+                out.append(o)
+        return out
 
     def objects(self, cfg, depth, reg_unsigned, n):
         rng, p = self.rng, self.p
@@ -245,6 +315,9 @@ class Gen:
             elif r < 0.7 and p.buffers:
                 out.append(self.buffer(cfg))
             elif r < 0.82 and p.refs:
+                if p.ref_families and rng.random() < 0.4:
+                    out.extend(self.ref_family(cfg, reg_unsigned))
+                    continue
                 o = self.ref(cfg, reg_unsigned)
                 if o:
                     out.append(o)
@@ -253,7 +326,11 @@ class Gen:
                 # a block shifts every kind's address space: keep children relative and small
                 saved = dict(self.next_addr)
                 self.next_addr = {"register": 0, "command": 0, "buffer": 0}
+                outer_scope = self.scope
+                self.scopes += 1
+                self.scope = self.scopes
                 inner = self.objects(cfg, depth + 1, reg_unsigned, rng.choice([1, 2, 3]))
+                self.scope = outer_scope
                 used = max(self.next_addr.values()) + 1
                 rep = None
                 span = used
